@@ -59,3 +59,10 @@ def run(ctx, rep):
     if g is not None:
         S.hemisphere_parity(rep, 'R4.5', 'Asr:guard-parity', g)
     rep.sample({'Asr': show(pay, maxd=8)[:400]})
+    # shared mechanism (a necessary condition of this property too): the ephemeris is taken at the requested date
+    from . import shared, julian
+    shared.include(ctx, rep, lambda c_, r_: julian.check(c_, r_, 'R4.7'), {'R4.7'}, why='Julian Day of the requested date')
+    # shared mechanism: no wrap-induced jump of the interpolated right ascension / declination (R1.2)
+    from . import shared, modular, conv as _CV
+    shared.include(ctx, rep, lambda c_, r_: modular.check(c_, r_, _CV.get(c_)), {'R1.2'}, why='360->0 seam hygiene of the interpolation')
+
